@@ -17,15 +17,15 @@ EXTRA = {
  "C08": " Added later: envelope fields absent on the wire (From, To, payload, signature), odd Ethereum-format transactions.",
  "C09": " Added later: every fourth case drives the ledger's own interface (PersistBlockData, Rollback) with synthetic blocks: delivery entries marked invalid, several chains per block, empty blocks, rollbacks in a row.",
  "C10": " Added later: variant balance-by-delta (the same final balance reached by credits and debits). The known finding 'reverted write on a new account' was repaired later (e5a2e9d8); two remain. Every fifth case runs real blocks (requests, receipts, timeouts, restarts) through the executor with a root monitor: nothing may be left dirty in the ledger after the commit (a write after the root), the header root is the hash of the committed journal, and the accounts the journal lists are exactly those whose keys changed in the state store.",
- "C11": " Added later: height 0 (the commit of the genesis block itself) and a crash block that creates accounts with code and storage (EVM constructor storing a word, WASM deployment).",
- "C12": " Added later: the running ledger itself is read right before every rollback and at the end of each history (its caches must hold the restored-and-continued state).",
+ "C11": " Added later: height 0 (the commit of the genesis block itself) and a crash block that creates accounts with code and storage (EVM constructor storing a word, WASM deployment). The chain meta (height, head hash, interchain transaction count) after recovery and after continuing is compared with the never-crashed replica and the chain audit of C09 runs on the recovered store; one crash height lies in the generated history and its block carries an accepted request.",
+ "C12": " Added later: the running ledger itself is read right before every rollback and at the end of each history (its caches must hold the restored-and-continued state). What a cache-less ledger reads (found-flag included) right after every commit is recorded; after a rollback to that height every read must repeat it.",
  "C13": " Added later: after every commit the running ledger (cache) and a cache-less ledger over the same store must answer identically, found-flag included; slot locality in the generator.",
- "C14": " Added later: a transfer that covers the amount but not the fee, sent after an earlier transaction of the block touched the receiver.",
- "C15": " Added later: an admin frozen with a pending activation (or a pending logout requested while frozen) is unavailable: votes by such admins are judged; freeze/activate/logout of weight-1 admins and votes aimed at proposals whose electorate lists them.",
- "C16": " Added later: master-rule changes; appchain-level gating (an approved freeze or logout of an appchain makes all its services unusable whatever the service record says); black-list-only updates; a scripted opening (freeze, rule change on the frozen chain, approval); probes aimed at chains and pairs whose status just changed.",
- "C17": " Added later: three more callers who are 'everyone else': the admin of an appchain whose id differs from the victim's only in letter case, a governance admin frozen by a vote, and one who then asked for his own logout.",
- "C18": " Added later: blocks produced elsewhere (commit of transactions the pool never held while the ledger's nonce advances, clients re-sending committed transactions, MarkBatched for blocks minted elsewhere).",
- "C19": " Added later: the same foreign-block operations as C18; every 25th case drives the pool's front buffer (TxCache) with consumers of different pace: every transaction comes out exactly once, in order, and a set does not change after it was handed over.",
+ "C14": " Added later: a transfer that covers the amount but not the fee, sent after an earlier transaction of the block touched the receiver. Amounts that are not decimal numbers but start with digits.",
+ "C15": " Added later: an admin frozen with a pending activation (or a pending logout requested while frozen) is unavailable: votes by such admins are judged; freeze/activate/logout of weight-1 admins and votes aimed at proposals whose electorate lists them. Every fifth case opens with a script in which the electorate changes while a proposal is paused.",
+ "C16": " Added later: master-rule changes; appchain-level gating (an approved freeze or logout of an appchain makes all its services unusable whatever the service record says); black-list-only updates; a scripted opening (freeze, rule change on the frozen chain, approval); probes aimed at chains and pairs whose status just changed. Two more scripted openings: a service registration approved while its appchain is frozen; an activation cascade over a logged-out service.",
+ "C17": " Added later: three more callers who are 'everyone else': the admin of an appchain whose id differs from the victim's only in letter case, a governance admin frozen by a vote, and one who then asked for his own logout. The frozen admins are in the electorate of the fixture's open proposal; aimed calls (UpdateService with the registered name and details, Vote by a frozen elector).",
+ "C18": " Added later: blocks produced elsewhere (commit of transactions the pool never held while the ledger's nonce advances, clients re-sending committed transactions, MarkBatched for blocks minted elsewhere). Timed-block pools (a quarter of the cases); foreign blocks announced by MarkBatched before their commit.",
+ "C19": " Added later: the same foreign-block operations as C18; every 25th case drives the pool's front buffer (TxCache) with consumers of different pace: every transaction comes out exactly once, in order, and a set does not change after it was handed over. In one of forty cases a parked transaction is superseded after it has waited longer than a tolerance and the age rule runs at once: the newcomer must survive (judged only when the measured elapsed time stayed below the tolerance).",
 }
 
 def check(pid, cat, text, note, technique, design_ref):
@@ -117,7 +117,7 @@ check("C11", "fault_enumeration",
   "runtime monitoring + fault injection: exhaustive composition of per-component crash images and SIGKILL at hook points, each recovered by the real ledger in a child process and compared with a never-crashed reference", "DESIGN.md §5 C11")
 
 check("C20", "fault_enumeration",
-  "Every replica is a separate OS process running the real etcd-raft (3 or 4 replicas) or solo order node behind a parent-process network that loses, duplicates, delays and reorders messages and isolates nodes; replicas are killed with SIGKILL at random moments, at the hook points around mint / recording the applied index and before/after the executor's durable write, and restarted from their data directories; clients re-send committed and uncommitted transactions. A stand-in executor logs every delivered block durably before reporting state. Offline oracle on the logs: heights delivered to each replica are exactly last+1 across all incarnations, every height has identical transactions and timestamp on all replicas, no transaction is in two heights, nothing unsubmitted is delivered, no committed batch above lastExec+1 is ever ignored. SyncCFTBlocks is enumerated completely for 1<=begin<=end<=40 x fetch {1,2,3,5,7}. Six genuine defects were found and repaired (fork after crash behind a snapshot, stuck replica after a crash during snapshot catch-up, four causes of a transaction delivered in two blocks). The stand-in executor's report lags behind the delivery by a scenario-determined amount; half of the partitions hit the busiest replica (the presumed leader) right after a burst.",
+  "Every replica is a separate OS process running the real etcd-raft (3 or 4 replicas) or solo order node behind a parent-process network that loses, duplicates, delays and reorders messages and isolates nodes; replicas are killed with SIGKILL at random moments, at the hook points around mint / recording the applied index and before/after the executor's durable write, and restarted from their data directories; clients re-send committed and uncommitted transactions. A stand-in executor logs every delivered block durably before reporting state. Offline oracle on the logs: heights delivered to each replica are exactly last+1 across all incarnations, every height has identical transactions and timestamp on all replicas, no transaction is in two heights, nothing unsubmitted is delivered, no committed batch above lastExec+1 is ever ignored. SyncCFTBlocks is enumerated completely for 1<=begin<=end<=40 x fetch {1,2,3,5,7}. Six genuine defects were found and repaired (fork after crash behind a snapshot, stuck replica after a crash during snapshot catch-up, four causes of a transaction delivered in two blocks). The stand-in executor's report lags behind the delivery by a scenario-determined amount; half of the partitions hit the busiest replica (the presumed leader) right after a burst. In two of three scenarios the committed blocks, the executed-block reports and the peer messages pass through the node's real feed hub (internal/app start/listenEvent) between the order node and the stand-in executor.",
   "The executor is a stand-in (the executor/ledger pair is C11's subject); messages are never corrupted; schedules are sampled (timing only selects them, no verdict depends on wall-clock); smart-BFT ordering is not linked in this tree's default build and is not covered.",
   "runtime monitoring + fault injection: multi-process cluster under a hostile in-memory network and SIGKILL at hook points, offline checker over durable per-replica delivery logs; exhaustive enumeration of sync ranges", "DESIGN.md §5 C20")
 
